@@ -62,10 +62,11 @@ QE_FILE = "qe_errors.csv"
 # ------------------------------------------------------------------------------------------------
 # configuration: every stochastic feature multi-valued
 # ------------------------------------------------------------------------------------------------
-def c12_config(rng, ndays, n_sites, n_sims, four=True, keep_all=True):
+def c12_config(rng, ndays, n_sites, n_sims, four=True, keep_all=True, start=None):
     # start early enough in the year that the run stays inside one calendar year (make_config truncates
     # runs that would end in a trailing partial year, finding recorded under C06)
-    start = W.date(rng.choice([2021, 2022, 2023]), rng.choice([1, 3, 5]), 1)
+    # `start` given: boundary periods chosen on purpose (leap day inside, ending on Dec 31 = day-of-year 366, 1-2 days)
+    start = W.date(*start) if start else W.date(rng.choice([2021, 2022, 2023]), rng.choice([1, 3, 5]), 1)
     end = start + W.timedelta(days=ndays - 1)
     cfg = W.make_config(rng, ndays=ndays, n_sites=n_sites, n_sims=n_sims,
                         start=[start.year, start.month, start.day], end=[end.year, end.month, end.day])
@@ -99,7 +100,9 @@ def c12_config(rng, ndays, n_sites, n_sims, four=True, keep_all=True):
     m["AIR_L"] = json.loads(json.dumps(m["AIR"]))
     m["AIR_L"].update({"mdl": 0.5, "spatial": 0.5, "surveys_per_year": 6, "t_bw_sites": [10.0, 25.0]})
     m["AIR_L"]["follow_up"].update({"proportion": 1.0, "delay": rng.choice([0, 5])})
-    if four:
+    if four == "three":
+        progs = [("P_none", []), ("P_air", ["AIR", "OGI_FU"]), ("P_airL", ["AIR_L", "OGI_FU"])]
+    elif four:
         progs = [("P_none", []), ("P_OGI", ["OGI"]), ("P_air", ["AIR", "OGI_FU"]), ("P_airL", ["AIR_L", "OGI_FU"]),
                  ("P_fix", ["FIX", "OGI_FU2"])]
     else:
@@ -107,6 +110,11 @@ def c12_config(rng, ndays, n_sites, n_sims, four=True, keep_all=True):
                  ("P_airL", ["AIR_L", "OGI_FU"])]
     cfg["programs"] = [{"name": n, "methods": ms} for n, ms in progs]
     cfg["baseline"] = "P_none"
+    # site ids: unsorted, non-contiguous integers (natural order != file order != 1..n)
+    ids = rng.sample(range(2, 120), len(cfg["sites"]))
+    for st_, i_ in zip(cfg["sites"], ids):
+        st_["id"] = i_
+    rng.shuffle(cfg["sites"])
     cfg["keep_all"] = keep_all
     cfg["extra_inputs"] = {QE_FILE: "err\n" + "\n".join(str(x) for x in (-50, -25, 0, 25, 50, 100)) + "\n"}
     return cfg
@@ -244,7 +252,10 @@ def compare(ra, rb, relation):
                 missing = [r for r in rows_b if r and r not in set(rows_a)]
                 if ha != hb or missing:
                     return {"file": rel, "kind": "summary-csv",
-                            "diff": {"row_of_subset_run_not_in_full_run": (missing or [hb])[0].decode("utf-8", "replace")}}
+                            "diff": {"row_of_subset_run_not_in_full_run": (missing or [hb])[0].decode("utf-8", "replace"),
+                                     "rows_of_full_run_with_the_same_program_and_simulation": [
+                                         r.decode("utf-8", "replace") for r in rows_a
+                                         if missing and r.split(b",")[:2] == missing[0].split(b",")[:2]]}}
             else:
                 if _rows(a) != _rows(b):
                     ha, rows_a = _rows(a)
@@ -401,17 +412,25 @@ def check_monitor(ctx, run, tables, label):
                              "not listed as mutated", "changed during set-up")
 
 
-def differential(ctx, cfg, tables, repo=None, label="cfg"):
+def make_plan(ctx, cfg):
+    """(base schedule, plan, programs sharing a label with an earlier program); uses ctx.rng: call in the main thread"""
     progs = [p["name"] for p in cfg["programs"]]
     seen_labels, shared_later = set(), []
     for p in cfg["programs"]:
         if any(l in seen_labels for l in p["methods"]):
             shared_later.append(p["name"])
         seen_labels.update(p["methods"])
+    base, plan = schedule_plan(ctx, progs, shared_later)
+    return base, plan, shared_later
+
+
+def differential(ctx, cfg, tables, repo=None, label="cfg", planned=None):
+    """ctx may be a per-configuration sub-context (configurations run concurrently; merged by the caller)"""
+    progs = [p["name"] for p in cfg["programs"]]
+    base, plan, shared_later = planned if planned is not None else make_plan(ctx, cfg)
     if shared_later:
         ctx.nontrivial.add("shared-method-label")
         ctx.count("configs_with_shared_method_label")
-    base, plan = schedule_plan(ctx, progs, shared_later)
     root = tempfile.mkdtemp(prefix="ldarverif_c12_")
     results = []
     try:
@@ -429,7 +448,9 @@ def differential(ctx, cfg, tables, repo=None, label="cfg"):
             ctx.extra.setdefault("fresh_run_failures", []).append({"config": label, "rc": ref.rc, "log_tail": ref.log[-1500:]})
             ctx.note(f"{label}: the simulator raised on a freshly seeded scenario (rc={ref.rc}); retried on a new folder")
         if ref.rc != 0:
-            raise core.InfraError(f"reference run failed 4 times rc={ref.rc}\n{ref.log[-3000:]}")
+            # not an infrastructure exit: recorded as a broken obligation, the other configurations go on
+            ctx.broke(f"whole run of {label} (reference schedule) raised on 4 freshly seeded folders", ref.log[-3000:])
+            return results
         check_monitor(ctx, ref, tables, "ref")
         feat = features(ref)
         ctx.extra.setdefault("features", []).append(feat)
@@ -443,7 +464,7 @@ def differential(ctx, cfg, tables, repo=None, label="cfg"):
             return item, r
 
         jobs = []
-        with ThreadPoolExecutor(max_workers=ctx.pick(7, 6)) as ex:
+        with ThreadPoolExecutor(max_workers=ctx.pick(5, 5)) as ex:
             # copies first (they only need the generator folder of the reference run) ...
             for i, item in enumerate(plan):
                 if item[3] == "copy":
@@ -474,7 +495,14 @@ def differential(ctx, cfg, tables, repo=None, label="cfg"):
             lab, rel, sched, where = item
             ctx.traces += 1
             if r.rc != 0:
-                raise core.InfraError(f"run {lab} {sched_str(sched)} failed rc={r.rc}\n{r.log[-3000:]}")
+                # the reference schedule ran through on this very generator folder: a schedule that raises is a difference
+                ctx.evaluations += 1
+                ctx.violate(f"C12:{rel}:{'debug' if sched['debug'] else 'pool'}:run-crashed",
+                            f"schedule [{sched_str(sched)}] raised (rc={r.rc}) on the generator folder on which [{sched_str(base)}] ran through",
+                            {"cfg": cfg, "schedule_a": base, "schedule_b": sched, "relation": rel,
+                             "first_difference": {"file": "<run crashed>", "kind": "run-crashed", "diff": {"log_tail": r.log[-1500:]}}})
+                results.append((lab, rel, sched, {"file": "<run crashed>", "kind": "run-crashed"}))
+                continue
             check_monitor(ctx, r, tables, lab)
             d = compare(ref, r, rel)
             ctx.evaluations += 1
@@ -493,11 +521,14 @@ def differential(ctx, cfg, tables, repo=None, label="cfg"):
             i, it = pool_items[-1]
             wd = os.path.join(root, f"c{i}")
             first = next(r for (item, r) in done if item is it)
-            again = run_schedule(cfg, it[2], wd, repo=repo)
+            again = run_schedule(cfg, it[2], wd, repo=repo) if first.rc == 0 else first
             ctx.traces += 1
             if again.rc != 0:
-                raise core.InfraError(f"pool rerun failed rc={again.rc}\n{again.log[-3000:]}")
-            d = compare(first, again, "same")
+                d = None
+                if first.rc == 0:
+                    d = {"file": "<run crashed>", "kind": "run-crashed", "diff": {"log_tail": again.log[-1500:]}}
+            else:
+                d = compare(first, again, "same")
             ctx.evaluations += 1
             ctx.count("compared:same-pool")
             ctx.nontrivial.add("same:pool")
@@ -517,10 +548,17 @@ def differential(ctx, cfg, tables, repo=None, label="cfg"):
 # ------------------------------------------------------------------------------------------------
 # history stage: the generator folder still holds the daily seed series of ANOTHER period of the same length
 # ------------------------------------------------------------------------------------------------
-def history_configs(rng):
-    """period A and period B = A shifted by one (non-leap) year: same number of days, disjoint dates"""
-    cfg = c12_config(rng, rng.choice([80, 100]), 4, 1, four=False)
-    y = rng.choice([2021, 2022])          # 2021, 2022, 2023 are not leap years
+def history_configs(rng, full_year=False, after_leap_day=False):
+    """period A and period B = A shifted by one year with the same number of days, disjoint dates"""
+    if full_year:
+        y = rng.choice([2021, 2022])
+        cfg = c12_config(rng, 365, 4, 1, four=False, start=[y, 1, 1])
+    elif after_leap_day:
+        y = 2024
+        cfg = c12_config(rng, 90, 4, 1, four=False, start=[y, 3, 1])
+    else:
+        cfg = c12_config(rng, rng.choice([60, 80]), 4, 1, four=False)
+        y = rng.choice([2021, 2022])          # 2021, 2022, 2023 are not leap years
     st = W.date(y, cfg["start"][1], 1)
     n = (W.date(*cfg["end"]) - W.date(*cfg["start"])).days
     a, b = json.loads(json.dumps(cfg)), json.loads(json.dumps(cfg))
@@ -820,6 +858,9 @@ def table_stage(ctx, repo=None):
         "copy_hooks": [[h["cls"], h["hook"], h["deep"]] for h in tables["copyHooks"]],
         "nondet_sites": [[n["file"], n["line"], n["func"], n["kind"]] for n in tables["nondetSites"]],
     })
+    if tables["patternErrors"]:
+        ctx.broke("table obligation patterns_found (extractor pattern missing; affected entries take their failing default)",
+                  json.dumps(tables["patternErrors"], indent=1))
     if tables["prologueRngSites"]:
         ctx.broke("table obligation prologue_clean", json.dumps(tables["prologueRngSites"], indent=1))
     flat = [h for h in tables["copyHooks"] if not h["deep"]]
@@ -850,16 +891,18 @@ def table_stage(ctx, repo=None):
 
 
 def config_plan(ctx):
-    """(ndays, n_sites, n_sims, four programs?, keep all program outputs?)"""
+    """(ndays, n_sites, n_sims, five programs incl. P_fix?, keep all program outputs?, start date or None)
+    boundary periods are put in on purpose: a leap day inside, a period ending on Dec 31 of a leap year (day-of-year
+    366), periods not starting on Jan 1, 1- and 2-day periods (New Year's Eve, Feb 28/29)"""
     if ctx.quick:
-        # third configuration: two batches of simulations (n_sims = 6) with keep_all False — the merge of the
+        # third configuration: two batches of simulations (n_sims = 6) with keep_all False - the merge of the
         # summary files across batches and the clearing of program outputs run in the parent between tasks
-        return [(130, 6, 1, True, True), (110, 5, 2, False, True), (60, 4, 6, True, False)]
-    # n_sims = 6/7: two batches of simulations (summary files merged across batches; with keep_all False the
-    # per-program files of the second batch are deleted after summarising, the summaries still compared)
-    return [(200, 8, 2, True, True), (180, 7, 1, True, True), (150, 6, 2, True, True), (200, 8, 3, False, True),
-            (120, 5, 1, True, True), (100, 5, 6, False, True), (100, 5, 7, True, False), (200, 8, 2, True, True),
-            (160, 6, 3, True, True)]
+        return [(100, 5, 1, True, True, [2024, 2, 1]), (85, 5, 2, False, True, [2024, 10, 8]), (40, 4, 6, "three", False, None),
+                (2, 4, 1, False, True, [2024, 2, 28])]
+    return [(180, 7, 2, True, True, None), (160, 6, 1, True, True, [2024, 1, 15]), (130, 6, 2, False, True, None),
+            (150, 6, 3, False, True, [2024, 6, 15]), (100, 5, 1, True, True, None), (80, 5, 6, "three", True, None),
+            (80, 4, 7, "three", False, None), (100, 5, 5, True, True, None),
+            (1, 4, 2, True, True, [2024, 12, 31]), (2, 4, 1, False, True, [2024, 12, 30]), (2, 4, 2, True, True, [2023, 2, 28])]
 
 
 def run(ctx):
@@ -872,8 +915,16 @@ def run(ctx):
                 "reference; non-trivial = distinct (relation, mode, #programs) classes, stochastic features seen active "
                 "in the reference outputs, and distinct clean model schedules (drv_effects vs Python rendering)")
     repo = os.environ.get("LDAR_REPO") or None
+    t_stage = {"t0": time.time()}
+
+    def lap(name):
+        now = time.time()
+        ctx.extra.setdefault("stage_seconds", {})[name] = round(now - t_stage["t0"], 1)
+        t_stage["t0"] = now
+
     extractor_selftest(ctx)
     tables = table_stage(ctx, repo)
+    lap("extractor")
     try:
         core.lean_stage(ctx, MODULE, FILE, drivers=["drv_effects"])
     finally:
@@ -883,25 +934,70 @@ def run(ctx):
                 EX.regenerate("/repo")
             except Exception:
                 pass
+    lap("lean")
     model_stage(ctx)
     tgt, d = direct_equipment_constant(ctx, repo)
+    lap("model+direct")
     if tgt is not None and tgt not in {m["target"] for m in tables["sharedMutations"]}:
         ctx.disagree("effects-table:sharedMutations", {"direct": "equipment_constant", "container": tgt},
                      "not listed as mutated", f"grew from {len(d['before'])} to {len(d['after'])} entries in three calls")
-    hist_cfgs = [history_configs(ctx.rng) for _ in range(ctx.pick(1, 3))]
-    with ThreadPoolExecutor(max_workers=1) as hex_:
-        # the history runs go through their own folders, next to the differential configurations
+    hist_cfgs = history_plan(ctx)
+    # everything random is drawn here, in the main thread; the runs then go concurrently (own folders, own
+    # sub-context each) and are merged in a fixed order
+    todo = []
+    for i, (ndays, n_sites, n_sims, four, keep_all, start) in enumerate(config_plan(ctx)):
+        cfg = c12_config(ctx.rng, ndays, n_sites, n_sims, four, keep_all, start)
+        todo.append((f"cfg{i}", cfg, make_plan(ctx, cfg), core.Ctx(ctx.prop, ctx.tier, ctx.seed)))
+    with ThreadPoolExecutor(max_workers=ctx.pick(4, 3)) as cex, ThreadPoolExecutor(max_workers=1) as hex_:
         hist_jobs = [hex_.submit(history_run, a, b, repo) for a, b in hist_cfgs]
-        for i, (ndays, n_sites, n_sims, four, keep_all) in enumerate(config_plan(ctx)):
-            cfg = c12_config(ctx.rng, ndays, n_sites, n_sims, four, keep_all)
-            differential(ctx, cfg, tables, repo=repo, label=f"cfg{i}")
+        jobs = [cex.submit(differential, sub, cfg, tables, repo, lab, planned) for (lab, cfg, planned, sub) in todo]
+        errs = []
+        for (lab, cfg, planned, sub), j in zip(todo, jobs):
+            try:
+                j.result()
+            except subprocess.TimeoutExpired:
+                raise
+            except Exception as e:   # a harness-side failure in one configuration does not hide the others
+                errs.append((lab, e))
+                sub.broke(f"differential stage of {lab} failed in the harness", repr(e))
+            merge_ctx(ctx, sub)
+            ctx.extra.setdefault("stage_seconds", {})[lab] = round(time.time() - t_stage["t0"], 1)
         for (a, b), j in zip(hist_cfgs, hist_jobs):
             history_record(ctx, tables, a, b, j.result())
+        lap("whole runs (configurations and history concurrently)")
     ctx.assumptions.append("C12: effect analysis is syntactic (import-closure reachability, aliases through parameters not seen); "
                            "OS scheduling, multiprocessing pickling and float formatting are covered by the differential runs only")
     ctx.extra["ignored_in_comparison"] = ["Logs/*", "parameters.yaml: input_directory/output_directory lines always, processes_count line "
                                           "between different worker counts, whole file for permuted order and subsets",
                                           "row order of the three summary CSVs between different schedules and between two pool runs"]
+
+
+def merge_ctx(ctx, sub):
+    ctx.evaluations += sub.evaluations
+    ctx.traces += sub.traces
+    ctx.nontrivial |= sub.nontrivial
+    for k, v in sub.counts.items():
+        ctx.count(k, v)
+    ctx.violations += sub.violations
+    ctx.disagreements += sub.disagreements
+    ctx.broken += sub.broken
+    ctx.notes += sub.notes
+    for x in sub.samples:
+        ctx.sample(x, cap=12)
+    for k, v in sub.extra.items():
+        if isinstance(v, list):
+            ctx.extra.setdefault(k, []).extend(v)
+        else:
+            ctx.extra[k] = v
+
+
+def history_plan(ctx):
+    """(cfg_a, cfg_b) pairs: B = A shifted by exactly one year with the same number of days"""
+    out = [history_configs(ctx.rng)]
+    if not ctx.quick:
+        out.append(history_configs(ctx.rng, full_year=True))      # one whole non-leap year, then the next one
+        out.append(history_configs(ctx.rng, after_leap_day=True))  # 2024-03-01.. and 2025-03-01..: a leap year, same length
+    return out
 
 
 def replay(ctx, data):
@@ -942,6 +1038,10 @@ def replay(ctx, data):
             rb = run_schedule(cfg, sb, wb, repo=repo)
         print("schedule a:", sched_str(sa), "rc", ra.rc)
         print("schedule b:", sched_str(sb), "rc", rb.rc)
+        if ra.rc == 0 and rb.rc != 0:
+            print("schedule b raised on the generator folder on which schedule a ran through:")
+            print(rb.log[-1500:])
+            return 1
         d = compare(ra, rb, rel)
         if d is None:
             print("no difference (every per-program file and the three summaries equal)")
@@ -1113,6 +1213,10 @@ SELFTEST_FILES = {
         "        o = cls.__new__(cls)\n"
         "        o.a = SHARED\n"
         "        return o\n"
+        "from functools import lru_cache\n"
+        "@lru_cache(maxsize=None)\n"
+        "def cached(x):  #@memo\n"                       # process-wide memo cache: listed as shared state
+        "    return x\n"
         "def nd(p):\n"
         "    for x in set(p):  #@nd1\n"
         "        pass\n"
@@ -1180,6 +1284,9 @@ def extractor_selftest(ctx):
             "none_arg": [p["arg"] for p in t["seedPoints"] if p["argMayBeNone"]],
             "nondet": sorted((n["line"], n["kind"]) for n in t["nondetSites"] if n["file"] == "progstub.py"),
         }
+        exp2["memo"] = [("progstub.py", ln("memo"), "progstub:cached.<memo cache>", "@lru_cache")]
+        got2["memo"] = [(m["file"], m["line"], m["target"], m["op"]) for m in t["sharedMutations"] if m["file"] == "progstub.py"]
+        t["sharedMutations"] = [m for m in t["sharedMutations"] if m["file"] != "progstub.py"]
         t["rngSites"] = [r for r in t["rngSites"] if r["file"] != "progstub.py"]
         got = {
             "rng": sorted((r["file"], r["line"], r["gen"]) for r in t["rngSites"]),
